@@ -30,6 +30,9 @@ rule("C17.k", "make_slp: every restriction row is repeated for every sample - th
               "column splits of A only; rows are left out at most where a row has no entry on future variables (counted, not summed)", floor=2)
 rule("C17.l", "make_slp: the scenarios are the user's samples, one to one - the number of samples and the list of cost samples that "
               "is appended are the whole list (or its image under create_cost_samples), never a selection (no de-duplication, filter, subset)", floor=1)
+rule("C17.n", "make_slp: present and future partition the grid at one boundary - the sub-grid of the future starts at, and the sub-grid of the "
+              "present ends at, the same expression (start_future); a boundary that is rounded or shifted on one side (ceil to the frequency: the "
+              "epoch raster, not the grid's) makes steps of the future first-stage decisions", floor=1)
 rule("C17.m", "robust target: the scenarios are the samples as given - the list that the scenario constraints are built from is the `samples` "
               "argument itself (or a plain array / list copy of it); it is not transposed, reshaped or re-ordered on the way (a transpose "
               "decided from the shape is wrong exactly when the number of samples equals the number of variables)", floor=1)
@@ -59,7 +62,7 @@ def _fresh_frames(fn):
     return out
 
 
-@analysis("slp", ["C07.e", "C17.b", "C17.c", "C17.d", "C17.f", "C17.h", "C17.j", "C17.k", "C17.l", "C17.m"])
+@analysis("slp", ["C07.e", "C17.b", "C17.c", "C17.d", "C17.f", "C17.h", "C17.j", "C17.k", "C17.l", "C17.m", "C17.n"])
 def run(ctx):
     p = ctx.p
     # ================================================================= C07.e
@@ -443,3 +446,21 @@ def run(ctx):
                     "samples as variables (6 scenarios, 6 variables: the 'robust' solution has a worst case of -1086 where a single-scenario "
                     "solution reaches -783)" % (au.short(bad[1], 40), p.where(bad[0].node))) if bad else
                    "the loop variable over the samples is re-defined in a way this rule does not interpret", node=lp)
+
+
+    # ================================================================= C17.n one boundary between present and future
+    rg = [(st, c) for st in au.walk_stmts(slp.body) for c in au.walk_own(st) if isinstance(c, ast.Call) and au.method_name(c) == "set_restricted_grid"]
+    starts = [(st, au.kwarg(c, "start") if au.kwarg(c, "start") is not None else (c.args[0] if c.args else None)) for st, c in rg]
+    starts = [(st, v) for st, v in starts if v is not None and not au.is_none(v)]
+    ends = [(st, au.kwarg(c, "end") if au.kwarg(c, "end") is not None else (c.args[1] if len(c.args) > 1 else None)) for st, c in rg]
+    ends = [(st, v) for st, v in ends if v is not None and not au.is_none(v)]
+    if not starts or not ends:
+        ctx.ob("C17.n", slp, "boundary between present and future", None, "the two sub-grids (start = ..., end = ...) were not both found")
+    else:
+        s_txt = {au.U(ctx.resolve(slp, v, st)) for st, v in starts}
+        e_txt = {au.U(ctx.resolve(slp, v, st)) for st, v in ends}
+        ctx.ob("C17.n", slp, "boundary between present and future", s_txt == e_txt and len(s_txt) == 1,
+               "the future starts at %s but the present ends at %s: the steps between the two belong to both or to neither - with the present "
+               "ending at ceil(start_future, freq) on a grid whose points are not multiples of the frequency (gas days from 06:00) the first future "
+               "step is decided once for all scenarios, and the SLP value (192) falls below the expected value of fixing the present to a "
+               "single-scenario solution (224)" % (sorted(s_txt), sorted(e_txt)), node=ends[0][0])
